@@ -584,10 +584,10 @@ def run(tier, replay=None):
     if replay:
         cases = [convcorr.Case(json.load(open(replay))["input"], "replay")]
     else:
-        cases = convcorr.programs(ck.rng, 60 if quick else 3000)
+        cases = convcorr.programs(ck.rng, 60 if quick else 600)
         cases += [convcorr.Case(gen.program(ck.rng, size=ck.rng.randint(2, 6), features=gen.DEFAULT_FEATURES), "generated-class")
-                  for _ in range(30 if quick else 600)]
-        for _ in range(240 if quick else 6000):
+                  for _ in range(30 if quick else 150)]
+        for _ in range(240 if quick else 1500):
             cases.append(convcorr.Case(Gen16(ck.rng).program(ck.rng.randint(2, 7)), "support"))
         cases += [convcorr.Case(s, "probe") for s in PROBES]
     t0 = time.time()
